@@ -112,6 +112,40 @@ template <typename T> Sx pure_case(std::string const& cmd, Sx const& a)
         if (!e.exact()) throw std::runtime_error("select: canonical number not reproduced by the engine");
         return Sx::list({Sx::num(r)});
     }
+#ifdef VERIF_MPI
+    if (cmd == "mpicbreuse")
+    {
+        // ONE hep::mpi_callback object asked on two communicators in which the process has different ranks (root of the group, not root
+        // of the world): it prints and writes exactly where the process is rank 0 of the communicator it is given.  C++ only, shim.
+        std::size_t const outsiders = a.at(0).N_();
+        Ctx ctx; g_ctx = &ctx; ctx.seed = 3;
+        typedef PChk<T> C;
+        auto f = [](hep::mc_point<T> const& p) { return p.point()[0]; };
+        C chk = hep::plain(hep::make_integrand<T>(f, 1), std::vector<std::size_t>{10, 10}, hep::make_plain_chkpt<T, script_engine>(script_engine(0)), ScriptCb<C>{{}});
+        char const* tmpdir = std::getenv("VERIF_TMP");
+        std::string const file = std::string(tmpdir ? tmpdir : ".") + "/verif_mpicb_" + std::to_string(::getpid()) + ".txt";
+        int wrote_as_root = 0, wrote_as_other = 0;
+        std::ostringstream sink; std::streambuf* old = std::cout.rdbuf(sink.rdbuf());
+        shim_report rep;
+        try
+        {
+            rep = shim_run(1, std::vector<int>{0}, [&](int) {
+                Ctx mine; g_ctx = &mine;
+                hep::mpi_callback<C> cb(hep::callback_mode::silent_and_write_chkpt, file);
+                ::unlink(file.c_str()); (void) cb(shim_comm(), chk);            // rank 0 of the group: writes
+                { std::ifstream in(file); wrote_as_root = in ? 1 : 0; }
+                ::unlink(file.c_str()); (void) cb(MPI_COMM_WORLD, chk);          // rank `outsiders` of the world: must stay silent
+                { std::ifstream in(file); wrote_as_other = in ? 1 : 0; }
+                ::unlink(file.c_str());
+                g_ctx = nullptr;
+            }, static_cast<int>(outsiders));
+        }
+        catch (...) { std::cout.rdbuf(old); throw; }
+        std::cout.rdbuf(old);
+        g_ctx = &ctx;
+        return Sx::list({Sx::sym(wrote_as_root == 1 && wrote_as_other == 0 ? "ok" : "violation"), Sx::num(wrote_as_root), Sx::num(wrote_as_other)});
+    }
+#endif
     if (cmd == "cbreuse")
     {
         // ONE built-in callback object invoked directly on a checkpoint with n results and then on another checkpoint, with another history,
